@@ -410,9 +410,23 @@ theorem resolve_nil (l : List (P β)) (h : valAt l 0 = 0) (hne : l ≠ []) : res
     simp [valAt] at h
     simp [resolve, go, force0, h]
 
-theorem commit_eq_resolve (l : List (P β)) (es : List (Edit β)) (l' : List (P β))
-    (h0 : valAt l 0 = 0) (hne : l ≠ []) (h : commit l es = some l') : l' = resolve l es := by
-  unfold commit at h
+/-- the variant `running` of `commitV` is the pinned `commit`, verbatim -/
+theorem commitV_running (l : List (P β)) (es : List (Edit β)) : commitV .running l es = commit l es := rfl
+
+theorem commitAllV_running (bs : List (List (Edit β))) : ∀ l : List (P β), commitAllV .running l bs = commitAll l bs := by
+  induction bs with
+  | nil => intro l; rfl
+  | cons es rest ih =>
+    intro l
+    simp only [commitAllV, commitAll, commitV_running]
+    cases commit l es with
+    | none => rfl
+    | some l1 => exact ih l1
+
+/-- whichever length guard the tree has, a committed batch is `resolve_edits` run to its end -/
+theorem commitV_eq_resolve (lv : LenV) (l : List (P β)) (es : List (Edit β)) (l' : List (P β))
+    (h0 : valAt l 0 = 0) (hne : l ≠ []) (h : commitV lv l es = some l') : l' = resolve l es := by
+  unfold commitV at h
   split at h
   · rename_i he
     have : es = [] := by simpa using he
@@ -422,26 +436,35 @@ theorem commit_eq_resolve (l : List (P β)) (es : List (Edit β)) (l' : List (P 
     · simpa using h.symm
     · cases h
 
-/-- **m2o invariant for any number of successive batches** -/
-theorem commitAll_inv (st : β → Bool) (Bo : Nat → Prop) (N : Nat) (h0 : Bo 0) :
+theorem commit_eq_resolve (l : List (P β)) (es : List (Edit β)) (l' : List (P β))
+    (h0 : valAt l 0 = 0) (hne : l ≠ []) (h : commit l es = some l') : l' = resolve l es :=
+  commitV_eq_resolve .running l es l' h0 hne h
+
+/-- **m2o invariant for any number of successive batches**, for both length guards -/
+theorem commitAllV_inv (lv : LenV) (st : β → Bool) (Bo : Nat → Prop) (N : Nat) (h0 : Bo 0) :
     ∀ (bs : List (List (Edit β))) (l l' : List (P β)), Inv st Bo N l → BatchesOk st l bs →
-      commitAll l bs = some l' → Inv st Bo N l' := by
+      commitAllV lv l bs = some l' → Inv st Bo N l' := by
   intro bs
   induction bs with
-  | nil => intro l l' hi _ h; simp [commitAll] at h; subst h; exact hi
+  | nil => intro l l' hi _ h; simp [commitAllV] at h; subst h; exact hi
   | cons es rest ih =>
     intro l l' hi hok h
     obtain ⟨h1, h2, h3, h4⟩ := hok
-    simp only [commitAll] at h
-    cases hc : commit l es with
+    simp only [commitAllV] at h
+    cases hc : commitV lv l es with
     | none => simp [hc] at h
     | some l1 =>
       simp only [hc] at h
       have hne : l ≠ [] := by
         intro hnil; have := shape_length hi.shape; simp [hnil] at this
-      have := commit_eq_resolve l es l1 hi.first hne hc
+      have := commitV_eq_resolve lv l es l1 hi.first hne hc
       subst this
       exact ih _ l' (resolve_inv st Bo N h0 l hi es h1 h2 h3) h4 h
+
+theorem commitAll_inv (st : β → Bool) (Bo : Nat → Prop) (N : Nat) (h0 : Bo 0)
+    (bs : List (List (Edit β))) (l l' : List (P β)) (hi : Inv st Bo N l) (hok : BatchesOk st l bs)
+    (h : commitAll l bs = some l') : Inv st Bo N l' :=
+  commitAllV_inv .running st Bo N h0 bs l l' hi hok (by rw [commitAllV_running]; exact h)
 
 /-! ### what the invariant says, in the property's words -/
 
@@ -796,22 +819,22 @@ def FromRepl : List (P β) → List (List (Edit β)) → P β → Prop
   | _, [], _ => False
   | l, es :: rest, p => (∃ ed ∈ es, p ∈ repl l ed) ∨ FromRepl (resolve l es) rest p
 
-theorem commitAll_mem (st : β → Bool) (Bo : Nat → Prop) (N : Nat) (h0 : Bo 0)
+theorem commitAllV_mem (lv : LenV) (st : β → Bool) (Bo : Nat → Prop) (N : Nat) (h0 : Bo 0)
     (bs : List (List (Edit β))) : ∀ (l l' : List (P β)), Inv st Bo N l → BatchesOk st l bs →
-    commitAll l bs = some l' → ∀ p ∈ l', p ∈ l ∨ p.2 = 0 ∨ FromRepl l bs p := by
+    commitAllV lv l bs = some l' → ∀ p ∈ l', p ∈ l ∨ p.2 = 0 ∨ FromRepl l bs p := by
   induction bs with
-  | nil => intro l l' _ _ h p hp; simp [commitAll] at h; subst h; exact Or.inl hp
+  | nil => intro l l' _ _ h p hp; simp [commitAllV] at h; subst h; exact Or.inl hp
   | cons es rest ih =>
     intro l l' hi hok h p hp
     obtain ⟨h1, h2, h3, h4⟩ := hok
-    simp only [commitAll] at h
-    cases hc : commit l es with
+    simp only [commitAllV] at h
+    cases hc : commitV lv l es with
     | none => simp [hc] at h
     | some l1 =>
       simp only [hc] at h
       have hne : l ≠ [] := by
         intro hnil; have := shape_length hi.shape; simp [hnil] at this
-      have := commit_eq_resolve l es l1 hi.first hne hc
+      have := commitV_eq_resolve lv l es l1 hi.first hne hc
       subst this
       rcases ih _ l' (resolve_inv st Bo N h0 l hi es h1 h2 h3) h4 h p hp with h5 | h5 | h5
       · rcases resolve_mem l es p h5 with h6 | h6 | h6
@@ -820,6 +843,11 @@ theorem commitAll_mem (st : β → Bool) (Bo : Nat → Prop) (N : Nat) (h0 : Bo 
         · exact Or.inr (Or.inr (Or.inl h6))
       · exact Or.inr (Or.inl h5)
       · exact Or.inr (Or.inr (Or.inr h5))
+
+theorem commitAll_mem (st : β → Bool) (Bo : Nat → Prop) (N : Nat) (h0 : Bo 0)
+    (bs : List (List (Edit β))) (l l' : List (P β)) (hi : Inv st Bo N l) (hok : BatchesOk st l bs)
+    (h : commitAll l bs = some l') : ∀ p ∈ l', p ∈ l ∨ p.2 = 0 ∨ FromRepl l bs p :=
+  commitAllV_mem .running st Bo N h0 bs l l' hi hok (by rw [commitAllV_running]; exact h)
 
 /-- entries of the identity map: byte `o[i]` with its own offset `i`, and the sentinel -/
 theorem ident_mem_from (o : List Nat) : ∀ (pre : List Nat) (p : P Nat), p ∈ identFrom pre.length o →
@@ -880,5 +908,159 @@ theorem isB_of_boOf {N : Nat} {l : List (P Nat)} (hs : Shape N l) (c : Nat) (hb 
     unfold isB
     rw [hg, h1]
     exact hst
+
+/-! ### the length of the rewritten text and the two length guards of `commit` -/
+
+theorem finalLen_add (es : List (Edit β)) : ∀ (c k : Int), finalLen (c + k) es = finalLen c es + k := by
+  induction es with
+  | nil => intro c k; rfl
+  | cons ed es ih =>
+    intro c k
+    simp only [finalLen]
+    have : c + k + (ed.w.length : Int) - ((ed.e - ed.s : Nat) : Int)
+        = (c + (ed.w.length : Int) - ((ed.e - ed.s : Nat) : Int)) + k := by omega
+    rw [this, ih]
+
+theorem slice_length {α : Type} (l : List α) (a b : Nat) (hb : b ≤ l.length) : (slice l a b).length = b - a := by
+  simp only [slice, List.length_take, List.length_drop]; omega
+
+theorem repl_length (l : List (P β)) (ed : Edit β) : (repl l ed).length = ed.w.length := by
+  unfold repl
+  cases ed.w with
+  | nil => rfl
+  | cons b bs => simp
+
+theorem force0_length (a : List (P β)) : (force0 a).length = a.length := by
+  cases a with
+  | nil => rfl
+  | cons p r => obtain ⟨x, v⟩ := p; simp [force0]
+
+/-- the loop of `resolve_edits` run to its end produces `finalLen` entries (sentinel included) -/
+theorem go_length (l : List (P β)) (h1 : 1 ≤ l.length) : ∀ (es : List (Edit β)) (start : Nat) (acc : List (P β)),
+    EditsOk (l.length - 1) start es →
+    ((go l start es acc).length : Int) = (acc.length : Int) + finalLen ((l.length : Int) - (start : Int)) es := by
+  intro es
+  induction es with
+  | nil =>
+    intro start acc hok
+    simp only [EditsOk] at hok
+    simp only [go, finalLen, List.length_append, List.length_drop]
+    omega
+  | cons ed es ih =>
+    intro start acc hok
+    obtain ⟨a1, a2, a3, a4⟩ := hok
+    simp only [go, finalLen]
+    rw [ih ed.e _ a4]
+    simp only [List.length_append, repl_length, slice_length l start ed.s (by omega)]
+    have : (l.length : Int) - (start : Int) + (ed.w.length : Int) - ((ed.e - ed.s : Nat) : Int)
+        = ((l.length : Int) - (ed.e : Int)) + (((ed.s - start : Nat) : Int) + (ed.w.length : Int)) := by omega
+    rw [this, finalLen_add]
+    omega
+
+/-- **length of the text after one batch** (edits sorted, non-overlapping, in range): the length of the
+current text plus, per edit, the length of the replacement minus the length of the replaced range — the
+value `resolve_edits` returns and the repaired `commit` compares with the limit -/
+theorem resolve_text_length (N : Nat) (l : List (P β)) (hs : Shape N l) (es : List (Edit β))
+    (hok : EditsOk (l.length - 1) 0 es) :
+    (((textOf (resolve l es)).length : Nat) : Int) = finalLen (((textOf l).length : Nat) : Int) es := by
+  obtain ⟨body, rfl, hb⟩ := hs
+  have hlen : (body ++ [((none : Option β), N)]).length - 1 = body.length := by simp
+  have hok' := hok
+  rw [hlen] at hok'
+  obtain ⟨body', g1, g2⟩ := go_shape N body hb es 0 [] hok' (by intro p hp; cases hp)
+  have hgl := go_length (body ++ [((none : Option β), N)]) (by simp) es 0 [] hok
+  rw [g1] at hgl
+  have ht : textOf (resolve (body ++ [((none : Option β), N)]) es) = textOf body' := by
+    unfold resolve
+    rw [g1, textOf_force0, textOf_shape]
+  rw [ht, textOf_shape, textOf_allSome_length g2, textOf_allSome_length hb]
+  simp only [List.length_append, List.length_cons, List.length_nil] at hgl
+  have h2 := finalLen_add es (body.length : Int) 1
+  have h3 : ((body.length + (0 + 1) : Nat) : Int) - ((0 : Nat) : Int) = (body.length : Int) + 1 := by omega
+  rw [h3, h2] at hgl
+  omega
+
+theorem lenOkFinal_iff (max : Nat) (cur : Int) (es : List (Edit β)) :
+    lenOkFinal max cur es = true ↔ finalLen cur es ≤ (max : Int) := by
+  unfold lenOkFinal
+  split
+  · rename_i h; constructor
+    · intro h2; cases h2
+    · intro h2; omega
+  · rename_i h; constructor
+    · intro _; omega
+    · intro _; rfl
+
+theorem commitV_final_eq (l : List (P β)) (es : List (Edit β)) (hne : es ≠ []) :
+    commitV .final l es = if finalLen ((l.length : Int) - 1) es ≤ (REALLY_MAX_LENGTH : Int) then some (resolve l es) else none := by
+  have he : es.isEmpty = false := by cases es <;> simp_all
+  unfold commitV lenGuard
+  simp only [he, Bool.false_eq_true, if_false, lenOkFinal_iff]
+
+/-- **the repaired guard: `commit` fails iff the FINAL length exceeds the limit** — a non-empty batch of
+sorted, non-overlapping, in-range edits on a well-shaped buffer is rejected (`InputTooLong`) exactly when
+the rewritten text would be longer than 65535 bytes -/
+theorem commitV_final_none_iff (N : Nat) (l : List (P β)) (hs : Shape N l) (es : List (Edit β)) (hne : es ≠ [])
+    (hok : EditsOk (l.length - 1) 0 es) :
+    commitV .final l es = none ↔ REALLY_MAX_LENGTH < (textOf (resolve l es)).length := by
+  have hl := shape_length hs
+  have hr := resolve_text_length N l hs es hok
+  have hc : (l.length : Int) - 1 = (((textOf l).length : Nat) : Int) := by omega
+  rw [commitV_final_eq l es hne, hc, ← hr]
+  split
+  · rename_i h; constructor
+    · intro h2; cases h2
+    · intro h2; omega
+  · rename_i h; constructor
+    · intro _; omega
+    · intro _; rfl
+
+/-- … and accepted, with `resolve_edits` run to its end as the result, exactly when it fits -/
+theorem commitV_final_some_iff (N : Nat) (l : List (P β)) (hs : Shape N l) (es : List (Edit β)) (hne : es ≠ [])
+    (hok : EditsOk (l.length - 1) 0 es) (l' : List (P β)) :
+    commitV .final l es = some l' ↔ l' = resolve l es ∧ (textOf (resolve l es)).length ≤ REALLY_MAX_LENGTH := by
+  have hl := shape_length hs
+  have hr := resolve_text_length N l hs es hok
+  have hc : (l.length : Int) - 1 = (((textOf l).length : Nat) : Int) := by omega
+  rw [commitV_final_eq l es hne, hc, ← hr]
+  split
+  · rename_i h; constructor
+    · intro h2; exact ⟨by simpa using h2.symm, by omega⟩
+    · rintro ⟨rfl, _⟩; rfl
+  · rename_i h; constructor
+    · intro h2; cases h2
+    · rintro ⟨_, h2⟩; omega
+
+/-- the running-length guard implies the final-length guard: whatever the pinned code accepts … -/
+theorem lenOk_imp_final (max : Nat) : ∀ (es : List (Edit β)) (cur : Int), es ≠ [] → lenOk max cur es = true →
+    finalLen cur es ≤ (max : Int) := by
+  intro es
+  induction es with
+  | nil => intro cur h; exact absurd rfl h
+  | cons ed es ih =>
+    intro cur _ h
+    simp only [lenOk] at h
+    split at h
+    · cases h
+    · rename_i hle
+      simp only [finalLen]
+      cases es with
+      | nil => simp only [finalLen]; omega
+      | cons e2 es2 => exact ih _ (by simp) h
+
+/-- … the repaired code accepts too, with the same result (the repair removes no functionality) -/
+theorem commit_imp_commitV_final (l : List (P β)) (es : List (Edit β)) (l' : List (P β))
+    (h : commit l es = some l') : commitV .final l es = some l' := by
+  cases es with
+  | nil => simpa [commit, commitV] using h
+  | cons ed es =>
+    rw [commitV_final_eq l (ed :: es) (by simp)]
+    unfold commit at h
+    simp only [List.isEmpty_cons, Bool.false_eq_true, if_false] at h
+    split at h
+    · rename_i hg
+      rw [if_pos (lenOk_imp_final _ (ed :: es) _ (by simp) hg)]
+      exact h
+    · cases h
 
 end EditM
